@@ -3,6 +3,8 @@ import Driver.Util
 /-! Line protocol for `Model/GenOrder` (area prefix `go_`, stateless).
 
   go_ repeat <k>                         -> same      (k generations write identical bytes)
+  go_ inproc <definition>                -> same      (generated inside a process that generated other
+                                                      definitions before = generated in a process of its own)
   go_ gsort order <Type/rawSorter>*      -> sorter type names in output order (sorted by (type, raw name), `*` stripped)
   go_ gerror fields <Name:flags>*        -> clone=<names in output order> print=<…>   (flags: letters c, p or -)
   go_ genum values <value:Name>*         -> names in output order (sorted by (value, name))
@@ -26,6 +28,7 @@ def commas (xs : List String) : String := if xs.isEmpty then "-" else ",".interc
 def handle (ws : List String) : String :=
   match ws with
   | ["repeat", _] => "same"
+  | "inproc" :: _ => "same"
   | "gsort" :: "order" :: rest =>
     match rest.mapM (split2 "/") with
     | some ps =>
